@@ -61,7 +61,7 @@ pub fn tx_of(r: &mut Rng, s: &Shape) -> Transaction {
     let t = s.rct;
     if t == RctType::Null { return Transaction { prefix, signatures: vec![], rct_signatures: RctSig { sig: Some(RctSigBase { rct_type: t, txn_fee: Default::default(), pseudo_outs: vec![], ecdh_info: vec![], out_pk: vec![] }), p: None } }; }
     let (nin, nout) = (s.nin, s.nout);
-    let mixin = match &prefix.inputs[0] { TxIn::ToKey { key_offsets, .. } => key_offsets.len() - 1, _ => 0 };
+    let mixin = match &prefix.inputs[0] { TxIn::ToKey { key_offsets, .. } => key_offsets.len().saturating_sub(1), _ => 0 };
     let compact = matches!(t, RctType::Bulletproof2 | RctType::Clsag | RctType::BulletproofPlus);
     let base = RctSigBase { rct_type: t, txn_fee: Amount::from_pico(vi(r).0), pseudo_outs: if t == RctType::Simple { keys(r, nin) } else { vec![] },
         ecdh_info: (0..nout).map(|_| if compact { EcdhInfo::Bulletproof { amount: Hash8(r.next().to_le_bytes()) } } else { EcdhInfo::Standard { mask: key(r), amount: key(r) } }).collect(),
